@@ -110,7 +110,9 @@ struct ArduinoJsonVerifInspector {
     }
   }
 
-  static Snap inspect(const AJ::JsonDocument& doc) {
+  // relaxed = an allocation failed since the last clear(): string nodes may have lost their user
+  // (a key saved before its member slots could be allocated) - refcounts may exceed, never undercut, the users
+  static Snap inspect(const AJ::JsonDocument& doc, bool relaxed = false) {
     Snap s;
     const RM* rm = &doc.resources_;
     const auto& pl = rm->variantPools_;
@@ -164,8 +166,8 @@ struct ArduinoJsonVerifInspector {
     std::set<std::string> contents;
     for (auto& kv : w.users) {
       const StringNode* n = kv.first;
-      if ((size_t)n->references != kv.second) { s.fail("string node \"" + vf::printable(std::string(n->data, n->length), 40) + "\" has references=" + std::to_string((unsigned long long)n->references) + " but " + std::to_string(kv.second) + " values use it"); break; }
-      if (kv.second == 0) { s.fail("string node survives its last user"); break; }
+      if (relaxed ? (size_t)n->references < kv.second : (size_t)n->references != kv.second) { s.fail("string node \"" + vf::printable(std::string(n->data, n->length), 40) + "\" has references=" + std::to_string((unsigned long long)n->references) + " but " + std::to_string(kv.second) + " values use it"); break; }
+      if (kv.second == 0 && !relaxed) { s.fail("string node survives its last user"); break; }
       if (!w.only_raw[n]) {
         if (n->data[n->length] != 0) { s.fail("string node used by a string value is not NUL-terminated at its length"); break; }
         std::string c(n->data, n->length);
